@@ -7,7 +7,10 @@ PROP = dict(
                    "${key} with the same arguments (C17_prop_is_value); binding through ${key} equals binding by prefix for every Faithful value "
                    "(C17_value_eq_prefix_partial: plain strings, |int| <= 2^53, booleans, short decimals, JSON-safe lists/maps thereof) and a plain literal "
                    "is bound as written (C17_literal_partial); a default declared in the placeholder or the shorthand (${key:d}, prop:\"key:d\") plays no part "
-                   "whenever the key is configured with a present value, the zero values 0 / false / 0.0 / \"\" included (C17_default_ignored). The full statements are FALSE of the code (the value path FormatAny -> splice -> ParseAny is "
+                   "whenever the key is configured with a present value, the zero values 0 / false / 0.0 / \"\" included (C17_default_ignored); "
+                   "a property that is populated AGAIN after a failed creation of its component binds exactly what a first-time population under the CURRENT "
+                   "configuration binds, whatever TagVal and field contents the earlier population left (C17_repopulate_current, on the holder model "
+                   "Ioc.Value.createTwice: Property objects survive in the definition registry). The full statements are FALSE of the code (the value path FormatAny -> splice -> ParseAny is "
                    "lossy); one machine-checked counterexample per class (C17_counterexamples) is replayed on the real code on every run and listed as a "
                    "known finding. The model is tied to the real container by a differential run of thousands of value x type pairs per run.",
         level_note="Partial: the value-path theorems carry the decidable hypothesis Faithful / PlainLiteral; encoding/json is a parameter assumed to "
@@ -26,6 +29,12 @@ PROP = dict(
              "a weak pair or no value at all (then only V = P is demanded); a configured key must win over the default (oracle valuepath-defaulted); "
              "about 25% of the cases pre-fill the bound fields with non-zero defaults (the configured value must replace them exactly: oracle prefill-merged); "
              "10% of the holders also carry an optional wire dependency and are started 4 times (oracle start-unstable); "
+             "every tenth case is a TWO-STEP HISTORY (kind R3): the same holder is populated twice — app.Run under the first configuration, where the "
+             "holder's creation fails after the placeholder stage ran (gate: the key is not configured yet | an extra field G int `value:\"${kgate}\"` first/last "
+             "in the holder whose key is absent | a required lazily created dependency whose Init fails while its upstream is down), then app.Set(key, v2) "
+             "(one history in five repoints an indirection instead: `value:\"${${kenv}}\"`, `prop:\"${kenv}\"`, `prefix:\"${kenv}\"`), then GetComponentByName(holder); "
+             "v1 and v2 are two different values of the field type outside the lossy classes (also pointers to structs); after the second creation "
+             "V = P = X = the CURRENT document value is demanded (a field that still shows the first configuration's value: oracle repopulate-stale); "
              "non-trivial = everything except bool->bool; distinct = distinct scenario lines",
         trusted_base=COMMON_TB + ["yaml.v3 + viper (document -> Go value), strconv2.ParseAny/FormatAny, mapstructure weak decoding, fmt %v / strconv.FormatFloat, "
                                   "encoding/json as modelled in Ioc.Value (validated by the correspondence on every run)",
